@@ -14,6 +14,7 @@ import (
 	"cedarverif/harness/internal/orc"
 	"cedarverif/harness/internal/refcodec"
 
+	"github.com/bbockelm/cedar/message"
 	"github.com/bbockelm/cedar/stream"
 )
 
@@ -301,6 +302,22 @@ func (w *sworld) recvc(n string) ([]byte, error) {
 			w.log("recvc "+n, "err "+errClass(err))
 		} else {
 			w.log("recvc "+n, "ok "+orc.ShowBytes(m))
+		}
+		return "", err
+	})
+	return msg, err
+}
+
+// mrest reads one whole message through the typed layer's GetRemainingBytes.
+func (w *sworld) mrest(n string) ([]byte, error) {
+	var msg []byte
+	err := w.around(n, func(e *sep) (string, error) {
+		m, err := message.NewMessageFromStream(e.s).GetRemainingBytes(bg)
+		msg = m
+		if err != nil {
+			w.log("mrest "+n, "err "+errClass(err))
+		} else {
+			w.log("mrest "+n, "ok "+orc.ShowBytes(m))
 		}
 		return "", err
 	})
